@@ -10,7 +10,7 @@ EXPLANATION = (
     "Delivery construction) is reachable only through PciSession::send_pci, whose spawn is dominated by the branch on "
     "which len <= mtu; MAC allocation is read+increment under one lock (or one atomic fetch_add whose previous value is returned) and feeds register_tap; unicast delivery is one "
     "lookup by the destination and one receive outside any loop; every delivery is dominated by the completion of the "
-    "latency sleep / throughput sleep on the branches where they are configured. Decides the structural clauses for all "
+    "latency sleep / throughput sleep on the branches where they are configured; (L-UNICAST) on the formula of Network::send specialised to the destination: None / BROADCAST_MAC hand the frame to taps.iter(), any other address to taps.get(address) only, at most once, and to nobody when no tap owns it. Decides the structural clauses for all "
     "schedules and inputs; does not decide delivery counts or the numeric value of the delays.")
 ASSUMPTIONS = ["tokio::time::sleep(d) completes no earlier than d", "std Mutex gives mutual exclusion"]
 
